@@ -231,6 +231,10 @@ class VersionConverter(object):
         :param element: lxml element containing the provided include link.
         """
         content = element.text
+        # An element without content names no file.
+        if not content or not content.strip():
+            return
+
         cache = {}
         term_handler = Terminologies(cache)
         term = term_handler.load(element.text)
@@ -262,6 +266,10 @@ class VersionConverter(object):
         :param element: lxml element containing the provided odML repository link.
         """
         content = element.text
+        # An element without content names no repository.
+        if not content or not content.strip():
+            return
+
         cache = {}
         term_handler = Terminologies(cache)
         term = term_handler.load(element.text)
